@@ -52,40 +52,51 @@ def call(f, *a, _t=5.0, **k):
 
 # ---------------------------------------------------------------- recording RNG
 class Rec(np.random.RandomState):
-    """RandomState that logs every draw; get_rng passes RandomState instances through unchanged."""
+    """RandomState that logs every draw; get_rng passes RandomState instances through unchanged.
+    Only the outermost call is logged (permutation() calls shuffle() internally)."""
 
     def __init__(self, seed):
         super().__init__(seed)
         self.log = []
+        self._depth = 0
 
-    def _rec(self, name, a, k, r):
-        self.log.append((name, a, k, np.asarray(r).tolist()))
+    def _wrap(self, name, meth, a, k, keep_args=True):
+        self._depth += 1
+        try:
+            r = meth(*a, **k)
+        finally:
+            self._depth -= 1
+        if self._depth == 0:
+            self.log.append((name, a if keep_args else (), k if keep_args else {}, np.asarray(r).tolist()))
         return r
 
     def randint(self, *a, **k):
-        return self._rec('randint', a, k, super().randint(*a, **k))
+        return self._wrap('randint', super().randint, a, k)
 
     def random_sample(self, *a, **k):
-        return self._rec('random_sample', a, k, super().random_sample(*a, **k))
+        return self._wrap('random_sample', super().random_sample, a, k)
 
     def rand(self, *a, **k):
-        return self._rec('rand', a, k, super().rand(*a, **k))
-
-    def permutation(self, *a, **k):
-        r = super().permutation(*a, **k)
-        self.log.append(('permutation', (), {}, np.asarray(r).tolist()))
-        return r
-
-    def choice(self, *a, **k):
-        return self._rec('choice', (), {}, super().choice(*a, **k))
-
-    def shuffle(self, x):
-        r = super().shuffle(x)
-        self.log.append(('shuffle', (), {}, np.asarray(x).tolist()))
-        return r
+        return self._wrap('rand', super().rand, a, k)
 
     def random(self, *a, **k):
-        return self._rec('random', a, k, super().random(*a, **k))
+        return self._wrap('random', super().random, a, k)
+
+    def permutation(self, *a, **k):
+        return self._wrap('permutation', super().permutation, a, k, keep_args=False)
+
+    def choice(self, *a, **k):
+        return self._wrap('choice', super().choice, a, k, keep_args=False)
+
+    def shuffle(self, x):
+        self._depth += 1
+        try:
+            r = super().shuffle(x)
+        finally:
+            self._depth -= 1
+        if self._depth == 0:
+            self.log.append(('shuffle', (), {}, np.asarray(x).tolist()))
+        return r
 
 
 # ---------------------------------------------------------------- model I/O
